@@ -242,7 +242,7 @@ def run(ctx):
     cases = RC.case_list(kinds=("rc", "its"), strategies=("all", "comp", "bt"))
     step = 12 if ctx.quick else 1
     for i, (rid, kind, d, s) in enumerate(cases):
-        if not ctx.mine(i) or (i // ctx.nshards) % step != ctx.seed % step:
+        if not ctx.mine(i) or ((i // ctx.nshards) % step != ctx.seed % step and rid < 10000):
             continue
         if ctx.out_of_time(0.55):
             ctx.count("own_truncated_by_budget")
